@@ -46,7 +46,7 @@ import (
 // ---- histories -------------------------------------------------------------------------------
 
 type BlobRef struct {
-	Kind string `json:"kind"` // h d junk
+	Kind string `json:"kind"` // h d junk; forged copies (fields of the genuine blob, not validly signed by the proposer): hf hk hs / df dk ds (profiles_test.go)
 	N    int    `json:"n"`    // source block height (junk: salt)
 }
 
@@ -367,6 +367,8 @@ type caseRun struct {
 	deaths   []uint64
 	shared   bool
 	harnessE error
+	proposer []byte // genesis.ProposerAddress
+	nForged  [2]int // forged header / data blobs posted
 }
 
 func (c *caseRun) fail(sig, what string) {
@@ -461,13 +463,13 @@ func (c *caseRun) marksOf(blobs [][]byte, height uint64) []string {
 		if len(b) == 0 {
 			continue
 		}
-		if hash, _, ok := decodeHeaderBlob(b); ok {
+		if hash, ok := genuineHeaderBlob(b, c.proposer); ok {
 			id, known := c.hashID[hash]
 			if !known {
 				id = 900000
 			}
 			items = append(items, item("IMarkH %d %d", id, height))
-		} else if commit, _, ok := decodeDataBlob(b); ok {
+		} else if commit, ok := genuineDataBlob(b, c.proposer); ok {
 			id, known := c.commitID[commit]
 			if !known {
 				id = 900001
@@ -478,18 +480,29 @@ func (c *caseRun) marksOf(blobs [][]byte, height uint64) []string {
 	return items
 }
 
-// blobClasses: what the retriever's admission tests make of each blob (decided here by independent decoding).
+// blobClasses: what the retriever's admission tests have to make of each blob (decided here by independent
+// decoding and signature verification): BH / BD = a header / signed data of this chain validly signed by the
+// proposer; BF / BG = a byte string that decodes as a header / signed data with the fields of a genuine one (same
+// header hash / data commitment) but is not validly signed by the proposer; BJ = anything else.
 func (c *caseRun) blobClasses(blobs [][]byte) []string {
 	var out []string
 	for _, b := range blobs {
 		if hash, _, ok := decodeHeaderBlob(b); ok {
 			if id, known := c.hashID[hash]; known {
-				out = append(out, item("BH %d", id))
+				if _, gen := genuineHeaderBlob(b, c.proposer); gen {
+					out = append(out, item("BH %d", id))
+				} else {
+					out = append(out, item("BF %d", id))
+				}
 				continue
 			}
 		} else if commit, _, ok := decodeDataBlob(b); ok {
 			if id, known := c.commitID[commit]; known {
-				out = append(out, item("BD %d", id))
+				if _, gen := genuineDataBlob(b, c.proposer); gen {
+					out = append(out, item("BD %d", id))
+				} else {
+					out = append(out, item("BG %d", id))
+				}
 				continue
 			}
 		}
@@ -792,6 +805,36 @@ func (c *caseRun) exec(op Op) {
 				if x, ok := c.srcData[uint64(b.N)+c.ih-1]; ok {
 					blobs = append(blobs, x)
 				}
+			case "hf", "hk", "hs":
+				g, ok := c.srcHdr[uint64(b.N)+c.ih-1]
+				if !ok {
+					continue
+				}
+				other := c.srcHdr[uint64(b.N)+c.ih]
+				if other == nil {
+					other = c.srcHdr[uint64(b.N)+c.ih-2]
+				}
+				if x := forgeHeader(g, other, b.Kind, b.N); x != nil {
+					blobs = append(blobs, x)
+					c.nForged[0]++
+				}
+			case "df", "dk", "ds":
+				g, ok := c.srcData[uint64(b.N)+c.ih-1]
+				if !ok {
+					continue
+				}
+				var other []byte
+				for d := uint64(1); d <= 3 && other == nil; d++ {
+					if o := c.srcData[uint64(b.N)+c.ih-1+d]; o != nil {
+						other = o
+					} else if o := c.srcData[uint64(b.N)+c.ih-1-d]; o != nil {
+						other = o
+					}
+				}
+				if x := forgeData(g, other, b.Kind, b.N); x != nil {
+					blobs = append(blobs, x)
+					c.nForged[1]++
+				}
 			default:
 				j := make([]byte, 40)
 				rand.New(rand.NewSource(int64(b.N))).Read(j)
@@ -969,11 +1012,13 @@ func (c *caseRun) daHas(height uint64, header bool, want string) bool {
 	c.nd.da.mu.Lock()
 	defer c.nd.da.mu.Unlock()
 	for _, b := range c.nd.da.heights[height] {
+		// (a byte string with the same header fields / the same transactions that the proposer did not sign is not
+		// the block's header / data)
 		if header {
-			if hash, _, ok := decodeHeaderBlob(b); ok && hash == want {
+			if hash, ok := genuineHeaderBlob(b, c.proposer); ok && hash == want {
 				return true
 			}
-		} else if commit, _, ok := decodeDataBlob(b); ok && commit == want {
+		} else if commit, ok := genuineDataBlob(b, c.proposer); ok && commit == want {
 			return true
 		}
 	}
@@ -1114,6 +1159,37 @@ func (c *caseRun) expectedFinal() uint64 {
 	return h - 1
 }
 
+// dataAheadOfHeader: the DA layer holds the data of some block k+1 at a lower DA height than any header of block k.
+func (c *caseRun) dataAheadOfHeader() bool {
+	if c.mode != "full" {
+		return false
+	}
+	first := func(header bool, want string) uint64 {
+		c.nd.da.mu.Lock()
+		top := c.nd.da.top
+		c.nd.da.mu.Unlock()
+		for h := uint64(1); h <= top; h++ {
+			if c.daHas(h, header, want) {
+				return h
+			}
+		}
+		return 0
+	}
+	sh, _ := c.nd.m.GetStoreHeight(c.ctx)
+	for h := c.ih; h+1 <= sh; h++ {
+		hd, _, err := c.nd.st.GetBlockData(c.ctx, h)
+		_, d, err2 := c.nd.st.GetBlockData(c.ctx, h+1)
+		if err != nil || err2 != nil || len(d.Txs) == 0 {
+			continue
+		}
+		a, b := first(false, d.DACommitment().String()), first(true, hd.Hash().String())
+		if a != 0 && b != 0 && a < b {
+			return true
+		}
+	}
+	return false
+}
+
 // quiesce: no more faults; the node does what its loops would do, then the includer runs.
 func (c *caseRun) quiesce() {
 	if c.mode == "agg" {
@@ -1159,6 +1235,8 @@ type caseOut struct {
 	deaths   []uint64
 	shared   bool
 	lost     bool
+	forged   [2]int
+	dataAhead bool
 	err      error
 	panicked string
 }
@@ -1205,6 +1283,7 @@ func runCase(t *testing.T, mode string, ih uint64, dc int, hist []Op, idx int, w
 			return
 		}
 		gen := genesis.NewGenesis("c07", ih, time.Now().UTC(), tsig.Address)
+		c.proposer = append([]byte{}, tsig.Address...)
 		if c.nd, err = newNode(ctx, mode, sg, gen, filepath.Join(root, "ut"), dc, release); err != nil {
 			out.err = err
 			return
@@ -1232,6 +1311,7 @@ func runCase(t *testing.T, mode string, ih uint64, dc int, hist []Op, idx int, w
 		out.viol, out.what = c.viol, c.what
 		out.finalDi = c.nd.m.GetDAIncludedHeight()
 		out.nOps, out.nCrash, out.lost = len(c.ops), c.nCrash, c.lostMark
+		out.forged, out.dataAhead = c.nForged, c.dataAheadOfHeader()
 		seen := map[int]bool{}
 		for _, tx := range c.txOf {
 			if tx != 0 && seen[tx] {
@@ -1388,6 +1468,9 @@ func TestVerif(t *testing.T) {
 			if c%10 == 4 || c%10 == 9 { // one aggregator and one full-node case in ten start above height 1
 				ih = 2 + uint64(c%3)
 			}
+			if mode == "full" && fullProfile(c) != "interleaved" && (c/10)%4 == 3 { // the other scenario streams: one case in four above height 1
+				ih = 2 + uint64(c%3)
+			}
 			jobs = append(jobs, job{seed: e.Seed, c: c, mode: mode, ih: ih, dc: -1})
 		}
 	}
@@ -1402,7 +1485,17 @@ func TestVerif(t *testing.T) {
 		r := caseRng(j.seed, j.c)
 		hist := j.hist
 		if hist == nil {
-			hist = genHistory(r, j.mode, maxLen)
+			switch prof := fullProfile(j.c); {
+			case j.mode == "full" && prof == "catchup":
+				hist = genHistoryCatchup(r, maxLen, false)
+			case j.mode == "full" && prof == "adversarial":
+				hist = genHistoryCatchup(r, maxLen, true)
+			default:
+				hist = genHistory(r, j.mode, maxLen)
+			}
+			if j.mode == "full" {
+				res.Count("stream:full-node-" + fullProfile(j.c))
+			}
 		}
 		if j.dc < 0 {
 			j.dc = genCfg(r)
@@ -1434,6 +1527,11 @@ func TestVerif(t *testing.T) {
 			for _, f := range op.Faults {
 				res.Count("da-fetch-fault:" + f.Op + "/" + f.Text)
 			}
+			for _, b := range op.Blobs {
+				if isForgedKind(b.Kind) {
+					res.Count("da-blob:forged-" + b.Kind)
+				}
+			}
 			if op.K == "scan" && len(op.Faults) >= 10 {
 				res.Count("history:scan-iteration-with-ten-or-more-faults")
 			}
@@ -1444,6 +1542,15 @@ func TestVerif(t *testing.T) {
 		}
 		if out.lost {
 			res.Count("history:aggregator-crash-with-unincluded-marks")
+		}
+		if out.forged[0] > 0 {
+			res.Count("history:da-layer-holds-forged-copy-of-a-header")
+		}
+		if out.forged[1] > 0 {
+			res.Count("history:da-layer-holds-forged-copy-of-signed-data")
+		}
+		if out.dataAhead {
+			res.Count("history:data-of-a-later-block-below-the-header-of-an-earlier-one-on-da")
 		}
 		rp := Replay{Seed: j.seed, Case: j.c, Mode: j.mode, IH: j.ih, Cfg: j.dc, History: hist}
 		if out.panicked != "" {
@@ -1497,7 +1604,7 @@ func TestVerif(t *testing.T) {
 		}
 	}
 	res.Distinct = len(distinct)
-	res.Rule = "histories of 4..maxLen operations; even cases on an aggregator (real publishBlock, real submitHeadersToDA/submitDataToDA against a DA double with scripted ANSWERS per SubmitWithOptions call: ids of all / of a prefix / of no blob with a nil error; an error — generic, ErrTxTimedOut, ErrTxAlreadyInMempool, ErrBlobSizeOverLimit, ErrContextDeadline, context.Canceled — with or without ids next to it (ids of blobs it kept, or of nothing it holds) and with or without the DA layer in fact keeping a prefix of the blobs; one script in a hundred fails 30+ times in a row (maxSubmitAttempts); the model computes the marks, both watermarks and the DA content from the answers (Model/IncluderAgg.v) and all three are compared after every operation / at the end), odd cases on a full node: blocks and blobs come from a source aggregator's real producer / submitter; blobs (headers, data, junk; repeats; header and data of a block at the same or at different DA heights, several blocks at one DA height) are posted to the DA double; every scan operation is one RetrieveLoop iteration = the real processNextDAHeaderAndData against the DA double scripted with that iteration's fetch faults (0..11 of: GetIDs error, deadline, Get error after a truthful listing with plain / 'blob: not found' (sentinel or wrapped) / deadline / 'from the future' text; then truthful service), the cursor moved iff it returned nil, and the events it produced are handed to the REAL SyncLoop (headers, then data, each to quiescence), which applies blocks with the event's DA height; blocks also arrive as by P2P (both parts cached, real trySyncNextBlock with the scan cursor as DA height); 35% empty blocks, transaction lists drawn from 3 so that blocks share data commitments; runs of the real DAIncluderLoop under synctest; crashes (no SaveCache) after 0..9 effects (datastore writes / SetFinal calls) of an includer run with the height the dying process reports sampled at that instant, NewManager on the image; faults (effect k+1 of a run fails, the loop returns its error, clean shutdown, restart); clean restarts = the real SaveCache, then NewManager (LoadCache) on the same directories; every case runs under one of 8 directory configurations (35% the default; RootDir plain / with a space / nested / named 'data' / uncleaned with '..', DBPath 'data' / 'custom' / empty / nested / absolute / with '..'): after every SaveCache the directory below RootDir that holds the cache files is read from disk and compared with the model's, after every new process the cache lookups are compared and (oracle) every mark set before a clean stop must still be set; (oracle) after every operation every DA-included mark of a stored block must be for a blob the DA double holds at the marked height; one case in five with genesis.InitialHeight 2..4; on the full node the scan cursor m.daHeight and the State.DAHeight read back from the store are compared with the model after every operation; every history is followed by a fault-free quiescence suffix (submit what is pending / scan to the DA tip with sync, include) after which the reported height must equal the height up to which both parts of every block are on the DA double; the committed corpus (harness/corpus/C07) holds the full-node scenarios 'parts at different DA heights, crash after apply', 'P2P block after scanning, crash', 'Get fails after a successful listing', 'clean restarts with DBPath outside RootDir', and the aggregator scenarios 'ids next to errors of every class, with and without blobs kept' and 'clean restarts / failing effect between submission and inclusion with a non-default DBPath'; non-trivial = at least 4 operations and final height >= 1; distinct = distinct projected traces"
+	res.Rule = "histories of 4..maxLen operations; even cases on an aggregator (real publishBlock, real submitHeadersToDA/submitDataToDA against a DA double with scripted ANSWERS per SubmitWithOptions call: ids of all / of a prefix / of no blob with a nil error; an error — generic, ErrTxTimedOut, ErrTxAlreadyInMempool, ErrBlobSizeOverLimit, ErrContextDeadline, context.Canceled — with or without ids next to it (ids of blobs it kept, or of nothing it holds) and with or without the DA layer in fact keeping a prefix of the blobs; one script in a hundred fails 30+ times in a row (maxSubmitAttempts); the model computes the marks, both watermarks and the DA content from the answers (Model/IncluderAgg.v) and all three are compared after every operation / at the end), odd cases on a full node in three scenario streams (by case index: 3 in 5 'interleaved' = the random interleavings described next, 1 in 5 'catchup', 1 in 5 'adversarial', see below): blocks and blobs come from a source aggregator's real producer / submitter; blobs (headers, data, junk; repeats; header and data of a block at the same or at different DA heights, several blocks at one DA height) are posted to the DA double; every scan operation is one RetrieveLoop iteration = the real processNextDAHeaderAndData against the DA double scripted with that iteration's fetch faults (0..11 of: GetIDs error, deadline, Get error after a truthful listing with plain / 'blob: not found' (sentinel or wrapped) / deadline / 'from the future' text; then truthful service), the cursor moved iff it returned nil, and the events it produced are handed to the REAL SyncLoop (headers, then data, each to quiescence), which applies blocks with the event's DA height; blocks also arrive as by P2P (both parts cached, real trySyncNextBlock with the scan cursor as DA height); 35% empty blocks, transaction lists drawn from 3 so that blocks share data commitments; runs of the real DAIncluderLoop under synctest; crashes (no SaveCache) after 0..9 effects (datastore writes / SetFinal calls) of an includer run with the height the dying process reports sampled at that instant, NewManager on the image; faults (effect k+1 of a run fails, the loop returns its error, clean shutdown, restart); clean restarts = the real SaveCache, then NewManager (LoadCache) on the same directories; every case runs under one of 8 directory configurations (35% the default; RootDir plain / with a space / nested / named 'data' / uncleaned with '..', DBPath 'data' / 'custom' / empty / nested / absolute / with '..'): after every SaveCache the directory below RootDir that holds the cache files is read from disk and compared with the model's, after every new process the cache lookups are compared and (oracle) every mark set before a clean stop must still be set; (oracle) after every operation every DA-included mark of a stored block must be for a blob the DA double holds at the marked height; one case in five with genesis.InitialHeight 2..4; on the full node the scan cursor m.daHeight and the State.DAHeight read back from the store are compared with the model after every operation; every history is followed by a fault-free quiescence suffix (submit what is pending / scan to the DA tip with sync, include) after which the reported height must equal the height up to which both parts of every block are on the DA double; stream 'catchup' (profiles_test.go): a chain of 2..5 blocks (35/50/70% empty) that the node mostly has by P2P before the DA layer holds it; the DA layer fills from the sequencer's two independent submission streams, headers and data each in height order in batches of 1..2 per DA height, the data stream ahead of or behind the header stream (turn bias 25/60/85%), junk and empty DA heights in between; in rounds: 1..3 more DA heights appear, the node scans up to the tip (sometimes only part of the way, sometimes under fetch faults), the includer runs, a block may arrive by P2P, and in every other round the process dies (crash after k effects 65%, failing effect 15%, clean restart 20%) so that deaths fall at every position of the DA-included frontier relative to the DA content; stream 'adversarial': the same on a DA layer to which anybody posts: forged copies of headers and of signed data = byte strings that decode with the fields of the genuine blob (same header hash / data commitment) but are not validly signed by the proposer (random signature bytes, the proposer's genuine signature of another header / data, signer and signature of a stranger's key), before, next to, after or instead of the genuine blob, typically for blocks the node already has by P2P (header hash marked seen); the harness classifies every posted blob by its own decoding AND signature verification (genuine header / data, forged copy of a known header / data, junk), the model gets these classes (BF / BG for forged copies: ignored), and the oracle counts a header / data as 'on the DA layer at height h' only if a GENUINE blob is there; one case in four of these two streams starts above height 1; the committed corpus (harness/corpus/C07) holds the full-node scenarios 'parts at different DA heights, crash after apply', 'P2P block after scanning, crash', 'Get fails after a successful listing', 'clean restarts with DBPath outside RootDir', 'data of later blocks below the headers of earlier ones on the DA layer, crash with an empty block at the DA-included frontier', 'forged copies of the header and data of blocks the node has seen', and the aggregator scenarios 'ids next to errors of every class, with and without blobs kept' and 'clean restarts / failing effect between submission and inclusion with a non-default DBPath'; non-trivial = at least 4 operations and final height >= 1; distinct = distinct projected traces"
 	res.Cases = len(cases)
 	header := "From Coq Require Import String NArith List Bool.\nFrom Verif Require Import Base.Keys Model.Includer Model.IncluderScan Model.IncluderAgg Check.IncluderCheck."
 	defs = append([]string{"Open Scope N_scope."}, defs...)
